@@ -176,6 +176,146 @@ theorem transfer_timeout_fits {s s' : State} {blk : Block} {msg : TransferMsg} {
   exact hto
 
 
+
+/-- Representation invariant: every stored outstanding balance is a `Uint128`. -/
+def Bounded (w : World) : Prop := ∀ k, outAt w.st.chan k ≤ U128_MAX
+
+theorem outAt_set_le {m : ChanMap} {k : Key} {v : ChanState} (hb : ∀ k, outAt m k ≤ U128_MAX)
+    (hv : v.outstanding ≤ U128_MAX) : ∀ k', outAt (m.set k v) k' ≤ U128_MAX := by
+  intro k'
+  by_cases h : k = k'
+  · subst h; simp [outAt, hv]
+  · have := hb k'; simp [outAt, AMap.get?_set_ne _ _ _ _ h] at this ⊢; exact this
+
+theorem updateDenoms_bounded (ch : String) (hold : Denom → Option Nat) (es : List ((String × Denom) × ChanState))
+    (m m' : ChanMap) (h : updateDenoms ch hold es m = .ok m') (hb : ∀ k, outAt m k ≤ U128_MAX) :
+    ∀ k, outAt m' k ≤ U128_MAX := by
+  induction es generalizing m with
+  | nil => simp [updateDenoms] at h; subst h; exact hb
+  | cons e rest ih =>
+    obtain ⟨⟨c, d⟩, cs⟩ := e
+    unfold updateDenoms at h
+    split at h
+    · split at h
+      · simp at h
+      · simp at h
+        obtain ⟨_, h⟩ := h
+        split at h
+        · exact ih m h hb
+        · simp at h
+          obtain ⟨ho, _, h⟩ := h
+          exact ih _ h (outAt_set_le hb (by simpa using ho))
+    · exact ih m h hb
+
+theorem migrate_bounded {s s' : State} {gas : Option Nat} {hold : Denom → Option Nat}
+    (h : migrate s gas hold = .ok s') (hb : ∀ k, outAt s.chan k ≤ U128_MAX) : ∀ k, outAt s'.chan k ≤ U128_MAX := by
+  simp [migrate] at h
+  obtain ⟨_, _, _, s1, h1, s2, h2, s3, h3, rfl⟩ := h
+  have e1 : s1.chan = s.chan := by
+    split at h1
+    · split at h1
+      · simp at h1
+      · simp at h1; subst h1; rfl
+    · simp at h1; subst h1; rfl
+  have e2 : ∀ k, outAt s2.chan k ≤ U128_MAX := by
+    split at h2
+    · unfold updateBalances at h2
+      split at h2
+      · simp at h2; subst h2; rw [e1]; exact hb
+      · simp at h2
+        obtain ⟨m, hm, rfl⟩ := h2
+        exact updateDenoms_bounded _ _ _ _ _ hm (by rw [e1]; exact hb)
+      · simp at h2
+    · simp at h2; subst h2; rw [e1]; exact hb
+  have e3 : s3.chan = s2.chan := by
+    split at h3
+    · simp at h3; obtain ⟨cfg, _, rfl⟩ := h3; rfl
+    · simp at h3; subst h3; rfl
+  split <;> (first | (rw [e3]; exact e2) | (show ∀ k, outAt s3.chan k ≤ U128_MAX; rw [e3]; exact e2))
+
+theorem exec_bounded {w w' : World} {blk : Block} {op : Op} {o : Outcome}
+    (hb : Bounded w) (h : w.exec blk op = .ok (w', o)) : Bounded w' := by
+  have inc : ∀ {ch : ChanMap} {c d amt}, increaseBalance w.st.chan c d amt = .ok ch → ∀ k, outAt ch k ≤ U128_MAX := by
+    intro ch c d amt hinc k
+    obtain ⟨ho, _, hle⟩ := increaseBalance_spec hinc
+    rw [ho k]; split
+    · rename_i hk; subst hk; exact hle
+    · exact hb k
+  have red : ∀ {ch : ChanMap} {c d amt}, reduceBalance w.st.chan c d amt = .ok ch → ∀ k, outAt ch k ≤ U128_MAX := by
+    intro ch c d amt hred k
+    obtain ⟨cs, _, _, _, ho, _⟩ := reduceBalance_spec hred
+    rw [ho k]; have := hb k; split <;> omega
+  cases op with
+  | connect id v cv ord =>
+    have f := exec_plain_frame h (Or.inl ⟨id, v, cv, ord, rfl⟩); unfold Bounded; rw [f.1]; exact hb
+  | allow snd c gg =>
+    have f := exec_plain_frame h (Or.inr (Or.inl ⟨snd, c, gg, rfl⟩)); unfold Bounded; rw [f.1]; exact hb
+  | updateAdmin snd a =>
+    have f := exec_plain_frame h (Or.inr (Or.inr ⟨snd, a, rfl⟩)); unfold Bounded; rw [f.1]; exact hb
+  | migrate gg => exact migrate_bounded (exec_migrate_frame h).1 hb
+  | transferNative snd funds msg =>
+    obtain ⟨d, amt, w1, s, out, _, _, _, hs, rfl, rfl⟩ := exec_transferNative_spec h
+    obtain ⟨ch, hinc, rfl, _⟩ := execTransfer_spec hs
+    exact inc hinc
+  | sendCw20 snd token amt msg =>
+    obtain ⟨w1, m, s, out, _, _, _, _, hs, rfl, rfl⟩ := exec_sendCw20_spec h
+    obtain ⟨ch, hinc, rfl, _⟩ := execTransfer_spec hs
+    exact inc hinc
+  | hook snd funds sender amt msg =>
+    obtain ⟨m, s, out, _, _, hs, rfl, rfl⟩ := exec_hook_spec h
+    obtain ⟨ch, hinc, rfl, _⟩ := execTransfer_spec hs
+    exact inc hinc
+  | recv p rv tv f =>
+    rcases exec_recv_cases h with ⟨_, rfl, _, _⟩ | ⟨s1, sub, hd, _, hc⟩
+    · exact hb
+    · obtain ⟨amt, d, ch, _, _, hred, rfl, _⟩ := doReceive_spec hd
+      rcases hc with ⟨hp, _⟩ | ⟨_, _, ra, ch2, hra, hundo, rfl⟩
+      · unfold Bounded; rw [(payout_frame hp).1]; exact red hred
+      · simp at hra; subst hra
+        have := undoReduce_reduce_eq hred hundo
+        subst this; exact hb
+  | ack chan data ackOk sv tv f =>
+    rcases exec_ack_cases h with ⟨_, rfl, _, _⟩ | ⟨_, s1, sub, hf, _, hc⟩
+    · exact hb
+    · obtain ⟨p, ch, rfl, hred, rfl, _⟩ := onPacketFailure_spec hf
+      rcases hc with ⟨hp, _⟩ | ⟨_, rfl, _⟩
+      · unfold Bounded; rw [(payout_frame hp).1]; exact red hred
+      · exact red hred
+  | timeout chan data sv tv f =>
+    obtain ⟨s1, sub, hf, _, hc⟩ := exec_timeout_cases h
+    obtain ⟨p, ch, rfl, hred, rfl, _⟩ := onPacketFailure_spec hf
+    rcases hc with ⟨hp, _⟩ | ⟨_, rfl, _⟩
+    · unfold Bounded; rw [(payout_frame hp).1]; exact red hred
+    · exact red hred
+
+/-- Histories without ghosts. -/
+def run (w : World) (ops : List (Block × Op)) : World := ops.foldl (fun w o => w.step o.1 o.2) w
+
+theorem run_bounded (w : World) (ops : List (Block × Op)) (hb : Bounded w) : Bounded (run w ops) := by
+  induction ops generalizing w with
+  | nil => exact hb
+  | cons op rest ih =>
+    apply ih
+    show Bounded (w.step op.1 op.2)
+    unfold World.step
+    split
+    · rename_i w' o h; exact exec_bounded hb h
+    · exact hb
+
+/-- **C12, handling a packet never aborts**, on every history: from any state whose balances are
+`Uint128` (e.g. a fresh instantiation), after any history, every incoming packet — whatever its
+fields, and whether or not the payout sub-call fails — is processed by a successful transaction that
+returns an acknowledgement. -/
+theorem receive_never_aborts (w : World) (ops : List (Block × Op)) (hb : Bounded w)
+    (blk : Block) (p : PacketIn) (rv tv f : Bool) :
+    ∃ w' o, (run w ops).exec blk (.recv p rv tv f) = .ok (w', o) ∧ o.ack.isSome := by
+  obtain ⟨w', o, h⟩ := receive_tx_total (run w ops) blk p rv tv f (run_bounded w ops hb)
+  refine ⟨w', o, h, ?_⟩
+  rcases exec_recv_cases h with ⟨_, _, ha, _⟩ | ⟨_, _, _, _, hc⟩
+  · simp [ha]
+  · rcases hc with ⟨_, ha⟩ | ⟨_, ha, _⟩ <;> simp [ha]
+
+
 /-! ## Non-vacuity: concrete histories -/
 
 def w0 : World :=
